@@ -122,7 +122,8 @@ def plan(tier, seed):
 
 def minimums(tier):
     return {"hexdump.calls": 5000, "hexdump.default_layout_roundtrips": 2000, "parse.format_checks": 6000,
-            "parse.short_last_line": 1500, "parse.with_comments": 800, "cli.hex_checked": 40, "layouts.checked": 400, "parse.beyond_64k": 20}
+            "parse.short_last_line": 1500, "parse.with_comments": 800, "cli.hex_checked": 40, "layouts.checked": 400, "parse.beyond_64k": 20,
+            "parse.dump_file_checks": 500}
 
 
 def finish(m, tier):
@@ -204,6 +205,27 @@ def run(spec, ctx):
                 back = bytes(hx.parse(lines, fmt))
             except Exception as e:
                 back = repr(e)
+            if name != "default" and n > 0 and i % 5 == 0:
+                # the same rendering as a dump FILE (the entry point that has to find out the format by itself), with a
+                # banner of comment / blank lines of any length in front
+                import io_drawer.dump as dump
+                captured = []
+                orig_pdd = dump.parse_dump_data
+                dump.parse_dump_data = lambda data, h, s_: captured.append(bytes(data)) or []
+                path = os.path.join(harness.scratch_root(), "c13_dump.txt")
+                pre = [rng.choice(comments) for _ in range(rng.choice([0, 1, 3, 15, 16, 17, 40]))]
+                with open(path, "w") as f:
+                    f.write("".join((ln if ln.endswith("\n") else ln + "\n") for ln in pre + list(lines)))
+                try:
+                    dump.parse_dump_file(path, "unused.h", "unused")
+                except Exception as e:
+                    captured = [repr(e).encode()]
+                finally:
+                    dump.parse_dump_data = orig_pdd
+                ctx.count("parse.dump_file_checks")
+                if captured != [d]:
+                    ctx.violation("C13/dump-file/" + name, "a dump file of %d bytes in the %s format (%d leading comment/blank lines) gave "
+                                  "back %s" % (n, name, len(pre), ("%d bytes" % len(captured[0])) if captured else "no data"), data=d[:300])
             if back != d:
                 ctx.violation("C13/parse-format/" + name, "parse() of %d bytes rendered in the %s format returned %s" %
                               (n, name, ("%d bytes" % len(back)) if isinstance(back, bytes) else back), data=d[:300])
